@@ -104,7 +104,7 @@ func (n *floodNode) members() []boson.Address {
 func TestFloodOnce(t *testing.T) {
 	run := obs.Start(t, "C38")
 	defer run.Done()
-	run.Rule("per case one real Service that joined a group with 1-4 connected and 0-3 kept members and has a multicast subscriber; scenario kinds: (seq) the same foreign (origin,id) message arrives 2-6 times one after the other from different members; (conc) it arrives 2-8 times at the same moment (spin barrier) from different members; (fwd-conc) 2-8 handler goroutines reach the forwarding step Multicast(msg, from) for it at the same moment; (own) the node multicasts its own message and 2-6 echoes of it come back, sequentially or at once; (mix) 3 different messages, each arriving 2-4 times, all at once; distinct = (kind, arrivals, connected, kept); non-trivial = more than one arrival and at least one member to forward to",
+	run.Rule("per case one real Service that joined a group with 1-4 connected and 0-3 kept members and has a multicast subscriber; scenario kinds: (seq) the same foreign (origin,id) message arrives 2-6 times one after the other from different members; (conc) it arrives 2-8 times at the same moment (spin barrier) from different members; (fwd-conc / fwd-seq) the forwarding step Multicast(msg, from) is reached 2-8 times for it, at the same moment / one after the other; (own) the node multicasts its own message and 2-6 echoes of it come back, sequentially or at once; (mix) 3 different messages, each arriving 2-4 times, all at once; distinct = (kind, arrivals, connected, kept); non-trivial = more than one arrival and at least one member to forward to",
 		"fresh (origin,id) pairs per case: the 60 s de-duplication window is never outlived (a case takes milliseconds; the time from first to last arrival is recorded)",
 		"a delivery is a Publish(group, multicastMsg, gid) on the service's pub/sub; a forward is a multicast stream opened to a member carrying that (origin,id)")
 	n := run.N(600, 6000)
@@ -115,7 +115,7 @@ func TestFloodOnce(t *testing.T) {
 			continue
 		}
 		rng := c.Rand()
-		kind := []string{"seq", "conc", "conc", "conc", "own-seq", "own-conc", "mix", "fwd-conc", "fwd-conc"}[rng.Intn(9)]
+		kind := []string{"seq", "conc", "conc", "conc", "own-seq", "own-conc", "mix", "fwd-conc", "fwd-conc", "fwd-seq"}[rng.Intn(10)]
 		nconn, nkept := 1+rng.Intn(4), rng.Intn(4)
 		nd := mkFloodNode(t, rng.Int63(), nconn, nkept)
 		mem := nd.members()
@@ -133,7 +133,7 @@ func TestFloodOnce(t *testing.T) {
 		concurrent := false
 		ownIDs := map[uint64]bool{}
 		switch kind {
-		case "seq":
+		case "seq", "fwd-seq":
 			mk(origin, uint64(1+rng.Intn(1000)), 2+rng.Intn(5))
 		case "conc", "fwd-conc":
 			mk(origin, uint64(1+rng.Intn(1000)), 2+rng.Intn(7))
@@ -191,6 +191,13 @@ func TestFloodOnce(t *testing.T) {
 			}
 		} else {
 			for _, a := range arrivals {
+				if kind == "fwd-seq" {
+					m := *a.msg
+					if e := nd.svc.Multicast(&m, a.from); e != nil {
+						t.Fatalf("Multicast: %v", e)
+					}
+					continue
+				}
 				if e := hnd(nd)(context.Background(), p2p.Peer{Address: a.from}, newMemStream(enc(a.msg))); e != nil {
 					t.Fatalf("onMulticast: %v", e)
 				}
